@@ -37,9 +37,13 @@ impl ServiceTargetActor {
             futures::select! {
                 _ = self.helper.termination_events.next().fuse() => break,
                 _ = self.helper.target_invalidated_events.next().fuse() => {
+                    #[cfg(zinoma_verif)]
+                    crate::zinoma_verif::note_actor_event(&self.helper.target_id, "I");
                     self.helper.notify_invalidated(ExecutionKind::Service).await
                 }
                 message = self.helper.target_actor_input_receiver.next().fuse() => {
+                    #[cfg(zinoma_verif)]
+                    crate::zinoma_verif::note_actor_message(&self.helper.target_id, message.as_ref().unwrap());
                     match message.unwrap() {
                         ActorInputMessage::Ok { kind, target_id, .. } => {
                             self.helper.unavailable_dependencies.get_mut(&kind).unwrap().remove(&target_id);
@@ -89,6 +93,8 @@ impl ServiceTargetActor {
             }
         }
 
+        #[cfg(zinoma_verif)]
+        crate::zinoma_verif::note_actor_event(&self.helper.target_id, "T");
         self.stop_service().await;
     }
 
